@@ -243,7 +243,17 @@ def run_mid_session(st, calls, res, info, level=2):
         srcb = Buf(n, data=src)
         dstb = Buf(max(cap, 0), fill=0xC3)
         sz = c_int(n)
-        if kind == "fr":
+        if kind == "frn":
+            # invalid size (negative / above LZ4_MAX_INPUT_SIZE) with a small valid source buffer: must return 0
+            bad_n = struct.unpack("<i", src[:4])[0]
+            srcb.free(); srcb = Buf(16, data=bytes(16)); n = 16
+            r = lib.compress_HC_extStateHC_fastReset(stbuf.p, srcb.p, dstb.p, bad_n, cap, level)
+            m = parse_mid(orc.ask("midfrn", str(bad_n), str(cap)))
+            consumed = 0
+            if r != 0:
+                res["fails"].append({"status": "prop_fail", "what": "LZ4_compress_HC_extStateHC_fastReset(level %d) returned %d for srcSize %d" % (level, r, bad_n),
+                                     "detail": dict(info, call=ci)})
+        elif kind == "fr":
             r = lib.compress_HC_extStateHC_fastReset(stbuf.p, srcb.p, dstb.p, n, cap, level)
             m = parse_mid(orc.ask("midfr", hx(src), str(cap)))
             consumed = n
@@ -312,7 +322,9 @@ def mid_history(st, rng, res, info, maxn, judge):
             prev = calls[-1][1]
             src = (prev[:len(src) // 2] + src)[:n]
         b = bound(n)
-        if rng.random() < 0.3:
+        if rng.random() < 0.06:
+            calls.append(("frn", struct.pack("<i", rng.choice([-1, -5, -2147483648, 0x7E000001, 2147483647])), rng.choice([0, 16, 100])))
+        elif rng.random() < 0.3:
             calls.append(("ds", src, rng.choice([1, 2, 5, 12, 13, 20, n // 3 + 1, n // 2 + 7, b, rng.randrange(1, b + 2)])))
         else:
             calls.append(("fr", src, rng.choice([b, b, b + 5, max(0, b - 1), n // 2 + 4, rng.randrange(0, b + 2)])))
